@@ -116,6 +116,22 @@ CLAIMED = {
           'idle sleep), sampled second preemptions and random schedules, for strategies x MIN_TIMESTAMP_LAG x update/create '
           'limits x MAX_UPDATES_PER_SECOND_ON_SHUTDOWN; at writer exit no datapoint accepted before the stop may still be cached.',
           'Non-failing backend; virtual clock.', 'DESIGN.md 3/C04'),
+  'C07': ('exploration', 'per-destination queue history with unique ids decoded from transport bytes, checked after every event on a fake reactor',
+          'Real CarbonClientManager / factories / client protocols / RelayProcessor wired by carbon\'s own setupRelayProcessor run on '
+          'a fake reactor; all applicable event sequences up to length L after several prefixes (one destination) and seeded random '
+          'sequences of 30-200 events (1-3 destinations; batch sizes, dynamic router, line/pickle, constant/consistent-hashing RF '
+          '1-2) are executed; acceptances are recorded at factory.sendDatapoint, re-routing at destinationDown and the fake '
+          'factory, bytes decoded from every StringTransport; no duplicate, order, conservation, bound, drop accounting, sent '
+          'counter and close-only-when-empty are asserted after every event.',
+          'Fake reactor delivers life-cycle events in Twisted\'s order; post-stop buffer handling unchecked.', 'DESIGN.md 3/C07'),
+  'C09': ('exploration', 'bounded-progress oracle at quiescence: controlled thread schedules (cache) and event sequences (relay)',
+          'Cache side: real MetricLineReceivers (incl. clients connecting / disconnecting mid-run) feed chunks through carbon\'s own '
+          'pipeline while the real writeForever() drains, under every 1-preemption, sampled 2-preemption, random and '
+          'event-dispatch-targeted schedules for MAX_CACHE_SIZE 1..6; at the end no receiver may be paused while the cache is below '
+          'its low watermark. Relay side: the C07 sequences plus a directed family (fill one destination until the pause, lose it '
+          'under the dynamic router) followed by two quiescence epilogues (all up / lost destinations stay down); receivers incl. '
+          'one connected while paused must be resumed.',
+          'Liveness restated as a check at quiescence; C09-d (unsynchronised event dispatch vs. disconnect) is a known finding.', 'DESIGN.md 3/C09'),
 }
 
 NOT_YET = 'check not built yet (work in progress; see DESIGN.md)'
